@@ -633,3 +633,78 @@ def bool_equiv(a, b):
         if bool_eval(a, env) != bool_eval(b, env):
             return False
     return True
+
+
+# ---------------------------------------------------------------------------------------------
+TOL_ROLE = {"rtol": "rel", "atol": "abs"}
+
+
+def r_tol_forward(ctx, f: FunctionInfo, rule="R-TOL", min_calls=1, only=None, skip=()):
+    """f has rtol/atol parameters: every call to a repo function (or numpy allclose/isclose) that takes
+    rtol/atol must receive f's rtol as rtol and f's atol as atol (not swapped, not dropped)."""
+    model = ctx.model
+    og = origins(f)
+    n = 0
+    mine = [p for p in ("rtol", "atol") if f.param(p) is not None]
+    if not mine:
+        ctx.ob(rule, f, "has rtol/atol", False, "the predicate no longer exposes rtol/atol")
+        return 0
+    for c in calls_in(f.node):
+        cal = model.resolve_call(f, c)
+        if cal.kind == "repo" and cal.func is not None:
+            callee = cal.func.name
+            if only is not None and callee not in only:
+                continue
+            if callee in skip:
+                continue
+            formals = [p for p in ("rtol", "atol") if cal.func.param(p) is not None]
+            if not formals:
+                continue
+            b = model.bind(c, cal.func)
+            for p in formals:
+                if p not in mine:
+                    continue
+                n += 1
+                a = b.get(p)
+                key = f"{p}->{callee}.{p}"
+                if a is DEFAULT or a is MISSING:
+                    ctx.ob(rule, f, key, False, f"`{unparse(c)[:70]}` does not forward `{p}`: the verdict ignores the caller's tolerance", c)
+                elif og.derives_from(a, p) and not any(og.derives_from(a, q) for q in mine if q != p):
+                    ctx.ob(rule, f, key, True, f"{p}={unparse(a)}", c)
+                else:
+                    other = [q for q in mine if q != p and og.derives_from(a, q)]
+                    ctx.ob(rule, f, key, False,
+                           f"`{p}` of {callee} receives `{unparse(a)}`" + (f" (the {TOL_ROLE[other[0]]}ative/absolute roles are exchanged)" if other else ""), c)
+        elif cal.kind == "lib" and cal.lib in ("numpy.allclose", "numpy.isclose"):
+            # positional: (a, b, rtol, atol)
+            vals = {}
+            if len(c.args) > 2:
+                vals["rtol"] = c.args[2]
+            if len(c.args) > 3:
+                vals["atol"] = c.args[3]
+            for kw in c.keywords:
+                if kw.arg in ("rtol", "atol"):
+                    vals[kw.arg] = kw.value
+            for p in mine:
+                n += 1
+                key = f"{p}->{cal.lib.split('.')[-1]}.{p}"
+                a = vals.get(p)
+                if a is None:
+                    ctx.ob(rule, f, key, False, f"`{unparse(c)[:70]}` does not receive `{p}`", c)
+                elif og.derives_from(a, p) and not any(og.derives_from(a, q) for q in mine if q != p):
+                    ctx.ob(rule, f, key, True, f"{p}={unparse(a)}", c)
+                else:
+                    ctx.ob(rule, f, key, False, f"`{p}` of {cal.lib} receives `{unparse(a)}`", c)
+    if n < min_calls:
+        ctx.ob(rule, f, "tolerances reach a comparison", False, f"no tolerance-taking call receives rtol/atol (found {n})")
+    return n
+
+
+def kraus_sandwich_terms(term):
+    """Sub-terms K @ X @ Dagger(K): returns list of (ok, subterm)."""
+    out = []
+    for s in subterms(term):
+        if isinstance(s, tuple) and s and s[0] == "@" and len(s[1]) == 3:
+            a, x, b = s[1]
+            out.append((b == ("dag", a) or (a[0] == "dag" and False), s))
+    return out
